@@ -31,17 +31,18 @@ Definition with_vin (t : tx) (v : list txin) : tx :=
 Definition with_vout (t : tx) (v : list txout) : tx :=
   {| tx_version := tx_version t; tx_vin := tx_vin t; tx_vout := v; tx_wit := tx_wit t; tx_lock := tx_lock t |}.
 
-(* function-local literals of RawSignatureHash (sorted set, see tools/extract_C03.py) *)
-Definition seq_zero : Z := nth 0 lits_RawSignatureHash 0.   (* `nSequence = 0` *)
-Definition mask_1f : Z := nth 1 lits_RawSignatureHash 0.    (* `hashtype & 0x1f` *)
+(* function-local literals of RawSignatureHash, located by tools/extract_C03.py as "the literal
+   operand of & in the test against SIGHASH_NONE / SIGHASH_SINGLE" (RSH_mask_none, RSH_mask_single:
+   today both 0x1f) and "the literal assigned to .nSequence in that branch" (RSH_seq_none,
+   RSH_seq_single: today both 0) *)
 (* bitcoin.core.CTxOut(): nValue=-1, scriptPubKey=CScript() *)
 Definition filler : txout := {| to_value := SINGLE_filler_nValue; to_script := SINGLE_filler_script |}.
 
 (* for i in range(len(txtmp.vin)): if i != inIdx: txtmp.vin[i].nSequence = 0 *)
-Fixpoint zero_other_seqs (vin : list txin) (i inIdx : Z) : list txin :=
+Fixpoint zero_other_seqs (z : Z) (vin : list txin) (i inIdx : Z) : list txin :=
   match vin with
   | [] => []
-  | x :: r => (if negb (i =? inIdx) then with_seq x seq_zero else x) :: zero_other_seqs r (i + 1) inIdx
+  | x :: r => (if negb (i =? inIdx) then with_seq x z else x) :: zero_other_seqs z r (i + 1) inIdx
   end.
 
 Section M.
@@ -58,17 +59,17 @@ Definition raw_sighash (script : bytes) (txTo : tx) (inIdx hashtype : Z) : res (
   let txtmp := with_vin txtmp vin in
   (* None = the early `return (HASH_ONE, "outIdx ... out of range")` *)
   do pruned <-
-    (if Z.land hashtype mask_1f =? SIGHASH_NONE then
+    (if Z.land hashtype RSH_mask_none =? SIGHASH_NONE then
        let txtmp := with_vout txtmp [] in
-       Ok (Some (with_vin txtmp (zero_other_seqs (tx_vin txtmp) 0 inIdx)))
-     else if Z.land hashtype mask_1f =? SIGHASH_SINGLE then
+       Ok (Some (with_vin txtmp (zero_other_seqs RSH_seq_none (tx_vin txtmp) 0 inIdx)))
+     else if Z.land hashtype RSH_mask_single =? SIGHASH_SINGLE then
        let outIdx := inIdx in
        if outIdx >=? len (tx_vout txtmp) then Ok None
        else
          do tmp <- py_nth (tx_vout txtmp) outIdx;
          (* vout = []; range(outIdx) appends of CTxOut(); append(tmp) *)
          let txtmp := with_vout txtmp (repeat filler (Z.to_nat outIdx) ++ [tmp]) in
-         Ok (Some (with_vin txtmp (zero_other_seqs (tx_vin txtmp) 0 inIdx)))
+         Ok (Some (with_vin txtmp (zero_other_seqs RSH_seq_single (tx_vin txtmp) 0 inIdx)))
      else Ok (Some txtmp));
   match pruned with
   | None => Ok (HASH_ONE, true)
